@@ -167,7 +167,8 @@ def _index(ctx, cls, I, col):
     why = f"index is {brief(t, 200)}"
     if ok:
         # the product's per-dimension arange(mins[d], maxs[d] + 1) must use the same mins / dims
-        from ..terms import NARROW_INT_DTYPES, indices_space
+        from ..terms import NARROW_INT_DTYPES, canonical_space, indices_space
+        sp = canonical_space(sp)
         grid = indices_space(sp)
         if grid is not None and grid[2] not in NARROW_INT_DTYPES:
             # the dense-grid idiom lists the same rows as the product of arange(M[i], M[i] + D[i])
@@ -178,6 +179,13 @@ def _index(ctx, cls, I, col):
         r = sp[2][0][1] if (sp[0] == "app" and sp[1] == "itertools.product") else None
         body = r[3] if r is not None and r[0] == "lam" else None
         if body is None or body[1] != "arange" or len(body[2]) != 2:
+            from ..terms import meshgrid_space
+            if any(x[0] == "app" and x[1] == "reshape" and (meshgrid_space(x) or (None, None))[1] == "xy" for x in subterms(sp)):
+                col.add("R14.2", f"{cls.name}.state_to_index", owner.module.relpath, fn.lineno, False,
+                        "the state space is (for some sizes) listed by np.meshgrid with the default indexing='xy' - rows not in row-major order of the "
+                        "ranges - while state_to_index is ravel_multi_index (row-major): listed states and reachable successors map to other "
+                        "states' rows", text="state index")
+                return
             # another way of listing the states: this rule has no normal form for it, so it gives no verdict
             raise AnalysisError(f"{cls.name}: the state space is built by a construct outside the rule's vocabulary: {show_norm(sp)[:160]}")
         else:
